@@ -345,7 +345,12 @@ fn parse_http(resp: &[u8]) -> Option<HttpResp> {
 }
 
 fn http_on<S: Read + Write>(mut s: S, path: &str) -> Result<HttpResp, String> {
-    let req = format!("GET {} HTTP/1.1\r\nHost: erbium\r\nConnection: close\r\n\r\n", path);
+    // `path` may carry its own method ("POST /metrics"); a bare path is fetched with GET
+    let req = if path.contains(' ') {
+        format!("{} HTTP/1.1\r\nHost: erbium\r\nContent-Length: 0\r\nConnection: close\r\n\r\n", path)
+    } else {
+        format!("GET {} HTTP/1.1\r\nHost: erbium\r\nConnection: close\r\n\r\n", path)
+    };
     s.write_all(req.as_bytes()).map_err(|e| format!("write: {}", e))?;
     let mut buf = vec![];
     let _ = s.read_to_end(&mut buf);
